@@ -15,6 +15,7 @@ from . import C07
 from .common import run_configs
 
 LEVEL = "other"
+_TIER = "quick"
 
 # functions whose panic sites do not depend on the proof or on bytes being decoded
 NOT_PROOF_DEPENDENT = {
@@ -50,6 +51,10 @@ def lock_pins():
 
 
 def body(ck, F, cfg):
+    if _TIER == "thorough" and cfg == "default":
+        from .. import witness
+
+        witness.require(ck, ['W3a', 'W3b'], "WITNESS")
     # TERM runs that cover the entry points (fill the safety log)
     runs = []
     for name, fn in (("verify", lambda: AN.verify_full(F)), ("verify-wrapper", lambda: AN.verify_wrapper(F)), ("ipp-scalars", lambda: ipp.analyse_vs(F)), ("batch", lambda: C07.analyse(F)), ("flatten", lambda: flatten.summarise(F, "verifier"))):
@@ -166,6 +171,8 @@ def body(ck, F, cfg):
 
 
 def run(tier):
+    global _TIER
+    _TIER = tier
     ck = run_configs(
         "C08", tier, LEVEL, body,
         explanation="PANIC: from the five decode/verify/batch entry points the crate-local call graph (resolved callees in MIR, closures, `?` error conversions, local Iterator impls) is closed; "
